@@ -433,6 +433,53 @@ pub fn app_layer(sc: &Scenario, out: &mut RunOut) -> Option<Violation> {
     None
 }
 
+/// RealWorld: `hyeong run -O<level> --color never FILE` (release binary, guard off).
+pub fn real_run(sc: &Scenario, level: u8, tag: &str) -> crate::real::RealOut {
+    let bin = match crate::real::binary() {
+        Ok(b) => b,
+        Err(e) => {
+            println!("HARNESS-ERROR: {}", e);
+            std::process::exit(2);
+        }
+    };
+    let dir = sim::scratch_dir().join(tag);
+    std::fs::create_dir_all(&dir).expect("mkdir");
+    let path = dir.join(&sc.file_name);
+    std::fs::write(&path, sc.file_content()).expect("write");
+    let args: Vec<String> = vec!["run".into(), format!("-O{}", level), "--color".into(), "never".into(), path.to_string_lossy().into_owned()];
+    let chunks = crate::real::chunks_from_plan(&sc.plan, 64);
+    let r = crate::real::run(&bin, &args, None, &sc.stdin, &chunks, std::time::Duration::from_secs(60)).expect("spawn");
+    let _ = std::fs::remove_file(&path);
+    r
+}
+
+/// Compare a real run with the model's expectation (terminating programs only).
+pub fn real_against_model(sc: &Scenario, ex: &Expect, level: u8, r: &crate::real::RealOut) -> Option<Violation> {
+    let tag = |c: &str| format!("real-O{}-{}", level, c);
+    let (header, rest) = split_header(&r.stdout, if level == 0 { 2 } else { 3 });
+    let obs = || format!("{} ; stdout {:?} ; stderr {:?}", r.describe(), lossy(&rest), lossy(&r.stderr));
+    if r.timed_out || r.signal.is_some() || r.status == Some(101) {
+        return Some(Violation::new(&tag("crash"), "defined ending", obs()));
+    }
+    let _ = (sc, header);
+    match &ex.halt {
+        Halt::Ended(End::End) | Halt::Ended(End::Exit(_)) => {
+            let want = if let Halt::Ended(End::Exit(c)) = &ex.halt { *c } else { 0 };
+            if r.status != Some(want) || rest != ex.out || r.stderr != ex.err {
+                return Some(Violation::new(&tag("output"), format!("status {} ; stdout {:?} ; stderr {:?}", want, lossy(&ex.out), lossy(&ex.err)), obs()));
+            }
+        }
+        Halt::Ended(End::Encoding(_)) => {
+            let ok = r.status == Some(1) && ex.out.starts_with(&rest) && crate::props::c02::strip_diag(&r.stderr).map_or(false, |(b, _)| ex.err.starts_with(&b));
+            if !ok {
+                return Some(Violation::new(&tag("error-ending"), format!("status 1 after a diagnostic ; stdout prefix of {:?}", lossy(&ex.out)), obs()));
+            }
+        }
+        _ => {}
+    }
+    None
+}
+
 impl Property for C01 {
     fn id(&self) -> &'static str {
         "C01"
@@ -484,6 +531,35 @@ impl Property for C01 {
         let mut out = RunOut::default();
         out.violation = if sc.knob("app") == 1 { app_layer(sc, &mut out) } else { lockstep(sc, &mut out) };
         out
+    }
+    fn post(&self, tier: Tier, seed: u64, stats: &mut crate::runner::Stats) -> Option<(Scenario, Violation)> {
+        // binary layer: a slice of the scenarios through the release binary
+        let n = match tier {
+            Tier::Quick => 400,
+            Tier::Thorough => 40_000,
+        };
+        let (spawned, bad) = crate::runner::par_find(n, |i| {
+            let sc = crate::runner::make_scenario(self, seed, i, tier);
+            if parse_checked(&sc).is_err() {
+                return (0, None);
+            }
+            let ex = expect_of(&sc);
+            if !matches!(ex.halt, Halt::Ended(End::End) | Halt::Ended(End::Exit(_)) | Halt::Ended(End::Encoding(_))) {
+                return (0, None);
+            }
+            let r = real_run(&sc, 0, "c01real");
+            if let Some(mut v) = real_against_model(&sc, &ex, 0, &r) {
+                v.world = "real";
+                return (1, Some((sc, v)));
+            }
+            (1, None)
+        });
+        if bad.is_some() {
+            return bad;
+        }
+        stats.extra.push(("realworld_spawns".into(), J::Int(spawned as i64)));
+        stats.extra.push(("realworld_note".into(), J::str("release binary `hyeong run -O0 --color never FILE` (main.rs, clap, real stdin path, real termcolor/std buffering) on terminating scenarios; stdin through a real pipe in planned write sizes; kernel interleaving not controlled")));
+        None
     }
     fn components(&self) -> J {
         J::obj()
